@@ -213,6 +213,21 @@ def shard(args):
     if args['kind'] == 'singles':
         seqs = [()] + [(o, ) for o in names]
         inputs = list(INPUTS)
+    elif args['kind'] == 'triples':
+        # sandwiches: a group option, an option of one of its mutators, the
+        # same or the opposite group option again (and --disable-all first)
+        by_group = {}
+        for o, kind, target, val in opts:
+            if kind == 'mutator':
+                g = next(g for g in reg if target in reg[g])
+                by_group.setdefault(g, []).append(o)
+        for g, mopts in by_group.items():
+            for m in mopts:
+                for a in (f'--{g}', f'--no-{g}', '--disable-all'):
+                    for c in (f'--{g}', f'--no-{g}'):
+                        seqs.append((a, m, c))
+        seqs = seqs[args['lo']::args['step']]
+        inputs = None
     elif args['kind'] == 'pairs':
         allp = list(itertools.product(names, names))
         seqs = allp[args['lo']::args['step']]
@@ -335,14 +350,18 @@ def run(ctx):
             shards.append({'kind': 'pairs', 'shard': 1 + i, 'lo': i * 6,
                            'step': 72})
         shards.append({'kind': 'random', 'shard': 50, 'n': 300})
+        shards.append({'kind': 'triples', 'shard': 55, 'lo': 0, 'step': 1})
         for i in range(2):
             shards.append({'kind': 'traced', 'shard': 60 + i, 'n': 8})
     else:
         for i in range(16):
             shards.append({'kind': 'pairs', 'shard': 1 + i, 'lo': i,
                            'step': 16})
+        for i in range(4):
+            shards.append({'kind': 'triples', 'shard': 55 + i, 'lo': i,
+                           'step': 4})
         for i in range(8):
-            shards.append({'kind': 'random', 'shard': 50 + i, 'n': 4000})
+            shards.append({'kind': 'random', 'shard': 70 + i, 'n': 4000})
         for i in range(8):
             shards.append({'kind': 'traced', 'shard': 60 + i, 'n': 100})
     results = common.run_shards('checks.c14', shards, timeout=3400)
@@ -352,7 +371,9 @@ def run(ctx):
         '--[no-]<group> x 8, --disable-all): the empty sequence and all '
         'singles x 20 inputs (exhaustive), ordered pairs (' +
         ('1/6 sample' if ctx.tier == 'quick' else 'all 15129, exhaustive') +
-        ') and random sequences of length 3-8, each on an input with / '
+        '), all 636 sandwiches (group option, option of one of its mutators, '
+        'group option again; also after --disable-all) and random sequences '
+        'of length 3-8, each on an input with / '
         'without declarations of each theory (sort in constant, function '
         'result, function parameter, define-sort, array); traced real runs '
         'with random option sequences; distinct non-trivial = distinct '
